@@ -310,6 +310,12 @@ alloc_small(j_common_ptr cinfo, int pool_id, size_t sizeofobject)
       slop = first_pool_slop[pool_id];
     else
       slop = extra_pool_slop[pool_id];
+#ifdef LJT_VERIF_POOLS
+    /* Verification builds: no slop, so that every small object lives in a
+     * malloc block of its own and a memory checker sees accesses beyond it.
+     */
+    slop = 0;
+#endif
     /* Don't ask for more than MAX_ALLOC_CHUNK */
     if (slop > (size_t)(MAX_ALLOC_CHUNK - min_request))
       slop = (size_t)(MAX_ALLOC_CHUNK - min_request);
